@@ -217,6 +217,22 @@ pub fn vclock_probes(c1: &VClock<A>, c2: &VClock<A>, c3: &VClock<A>, a: &mut Arg
     for (x, y) in [(c1, c2), (c2, c1), (c1, c1), (c2, c3), (c1, c3)] {
         t.call("vclock.cmp", &[sx(x), sx(y), ord_sx(x.partial_cmp(y))]);
         t.call("vclock.concurrent", &[sx(x), sx(y), x.concurrent(y).to_string()]);
+        // the comparison OPERATORS (PartialOrd::lt / le / gt / ge can be overridden separately from partial_cmp) and ==
+        t.call("vclock.ops", &[sx(x), sx(y), (x < y).to_string(), (x <= y).to_string(), (x > y).to_string(), (x >= y).to_string(), (x == y).to_string()]);
+        // a pair with the same smallest and largest actor, the same number of actors, and different actors in between
+        {
+            let mut p = VClock::<A>::new();
+            let mut q = VClock::<A>::new();
+            let base = x.get(&0) + y.get(&1);
+            p.apply(Dot::new(0, 1 + base % 3));
+            q.apply(Dot::new(0, 1 + (base / 3) % 3));
+            p.apply(Dot::new(1, 1 + x.get(&2) % 3));
+            q.apply(Dot::new(2, 1 + y.get(&2) % 3));
+            p.apply(Dot::new(3, 1 + x.get(&3) % 3));
+            q.apply(Dot::new(3, 1 + y.get(&3) % 3));
+            t.call("vclock.cmp", &[sx(&p), sx(&q), ord_sx(p.partial_cmp(&q))]);
+            t.call("vclock.ops", &[sx(&p), sx(&q), (p < q).to_string(), (p <= q).to_string(), (p > q).to_string(), (p >= q).to_string(), (p == q).to_string()]);
+        }
         let mut m = x.clone();
         m.merge(y.clone());
         t.call("vclock.merge", &[sx(x), sx(y), sx(&m)]);
